@@ -38,7 +38,7 @@ ASSUMPTIONS = [
     "which is valid for any grouping.",
     "Device without wires: outcome order of wire-less measurements follows the wires of the device-preprocessed tape.",
 ]
-BUDGET = {"quick": {"examples": 120}, "thorough": {"examples": 6000, "shards": 16}}
+BUDGET = {"quick": {"examples": 120}, "thorough": {"examples": 3000, "shards": 8}}
 SHRINK_LISTS = ("ops", "meas")
 ALPHA = stt.ALPHA
 
